@@ -180,10 +180,26 @@ class Obj:
 
 
 class Var:
-    """A probed object whose attribute is a mutable list (so that a missing copy is visible)."""
+    """A probed object whose attribute is a mutable container modified in place (so that a missing copy
+    is visible): a list for even indices, a deque for odd ones (a probe must copy whatever it reads)."""
 
-    def __init__(self):
-        self.x = [0]
+    def __init__(self, k=0):
+        import collections
+        self.x = [0] if k % 2 == 0 else collections.deque([0])
+
+
+class FalsyOverride:
+    """a per-object override action that is a callable OBJECT with a false truth value (legal: the
+    scheduler must test for None, not for truthiness)"""
+
+    def __init__(self, fn):
+        self.fn = fn
+
+    def __len__(self):
+        return 0
+
+    def __call__(self, *a):
+        return self.fn(*a)
 
 
 def kvs(toks):
@@ -338,7 +354,7 @@ class FullRunner(Runner):
 
     def set_var(self, k, v):
         while len(self.svars) <= k:
-            self.svars.append(Var())
+            self.svars.append(Var(len(self.svars)))
         self.svars[k].x[0] = v
 
     def make_part_cb(self, spec):
@@ -432,7 +448,8 @@ class FullRunner(Runner):
             self.out.append('harness-error bad-asset ' + ' '.join(toks))
 
     def sval(self, x):
-        if isinstance(x, list):
+        import collections
+        if isinstance(x, (list, collections.deque)):
             return ival(x[0])
         return ival(x)
 
@@ -525,7 +542,13 @@ class FullRunner(Runner):
             rm.add_resources(f'r{toks[1]}', int(toks[2]))
             return 'ok'
         if op == 'reserve':
-            r = rm.reserve_resources(preq(toks[2]))
+            # the SAME dictionary object is passed for equal requests (callers reuse their request
+            # dictionaries; a reservation must not share its holdings table with the caller)
+            cache = self.__dict__.setdefault('_req_cache', {})
+            req = cache.get(toks[2])
+            if req is None or req != preq(toks[2]):
+                req = cache[toks[2]] = preq(toks[2])
+            r = rm.reserve_resources(req)
             self.set_hvar(int(toks[1]), r)
             return 'ret none' if r is None else 'ret some'
         if op == 'release':
@@ -600,6 +623,8 @@ class FullRunner(Runner):
                     runner.results.append(f'act {s._vidx} {ob.k} {ticks(time)} {ival(state)} {o}'
                                           + ('' if ok else ' badargs')
                                           + ('' if sched.current_state == state else ' stale-state'))
+            if ovr is not None and k % 2 == 1:
+                ovr = FalsyOverride(ovr)
             r = s.register_object(obj, ovr)
             return 'ret 1' if r else 'ret 0'
         if op == 'unregobj':
@@ -686,8 +711,14 @@ class FullRunner(Runner):
                 return '?'
         handler = isinstance(d, PartHandler)
         if k == 'processor':
-            up = safe(lambda: ticks(d._uptime + ((now - d._last_restore) if d._last_restore is not None else 0)))
-            use = safe(lambda: ticks(d._time_in_use + ((now - d._last_use_start) if d._last_use_start is not None else 0)))
+            # the PUBLIC accounting (what a user reads), not the private accumulators
+            # (before the device has an environment the properties cannot be evaluated: private formula)
+            def _pub(prop, acc, start):
+                if getattr(d, '_env', None) is not None:
+                    return ticks(getattr(d, prop))
+                return ticks(getattr(d, acc) + ((now - getattr(d, start)) if getattr(d, start) is not None else 0))
+            up = safe(lambda: _pub('uptime', '_uptime', '_last_restore'))
+            use = safe(lambda: _pub('utilization_time', '_time_in_use', '_last_use_start'))
             down = safe(lambda: ival(d._is_shut_down))
             resv = safe(lambda: '-' if d._reserved_resources is None else '[' + self.req_str(d._reserved_resources._reserved_resources) + ']')
             wres = safe(lambda: ival(d._waiting_for_resources))
@@ -702,9 +733,10 @@ class FullRunner(Runner):
             ('since', lambda: ticks(d._waiting_for_part_since) if handler else '-'),
             ('blk', lambda: ival(d._block_input)), ('down', lambda: down), ('resv', lambda: resv), ('wres', lambda: wres),
             ('up', lambda: up), ('use', lambda: use), ('val', lambda: ival(d.value)), ('vh', lambda: str(len(d.value_history))),
-            ('prod', lambda: ival(g('_produced_parts', 0))), ('cost', lambda: ival(g('_cost_of_produced_parts', 0))),
-            ('max', lambda: ival(g('_max_produced_parts', INF))), ('recv', lambda: ival(g('_received_parts_count', 0))),
-            ('rval', lambda: ival(g('_value_of_received_parts', 0))), ('lvl', lambda: ival(g('_level', 0))),
+            ('prod', lambda: ival(g('produced_parts', 0))), ('cost', lambda: ival(g('cost_of_produced_parts', 0))),
+            ('max', lambda: ival(g('_max_produced_parts', INF))), ('recv', lambda: ival(g('received_parts_count', 0))),
+            ('rval', lambda: ival(g('value_of_received_parts', 0))),
+            ('lvl', lambda: ival(d.level() if hasattr(d, 'level') else 0)),
             ('buf', lambda: jn(';', (f'{ticks(t)}:{self.pidx(p)}' for t, p in g('_buffer', [])))),
             ('inprog', lambda: self.pidx(g('_in_progress_batch'))),
             ('coll', lambda: jn(';', (self.pidx(p) for p in g('collected_parts', [])))),
@@ -756,8 +788,9 @@ class FullRunner(Runner):
         o = self.out
         if self.valcheck:
             self.dump_ext_values()
-        for name, (u, c) in rm._resources.items():
-            o.append(f'r {self.rid(name)} use={ival(u)} cap={ival(c)}')
+        for name in rm._resources:
+            # the PUBLIC getters (what a user reads)
+            o.append(f'r {self.rid(name)} use={ival(rm.get_resource_usage(name))} cap={ival(rm.get_resource_capacity(name))}')
         if rm._waiting_requests:
             items = []
             for req, cb in rm._waiting_requests:
@@ -769,11 +802,11 @@ class FullRunner(Runner):
             o.append('wq -')
         sums = {name: 0 for name in rm._resources}
         for rr in self.all_resv:
-            for name, a in rr._reserved_resources.items():
+            for name, a in rr.reserved_resources.items():
                 sums[name] = sums.get(name, 0) + a
         o.append('hsum 0 ' + jn(';', (f'{self.rid(n)}:{ival(sums[n])}' for n in rm._resources)))
         for h, v in enumerate(self.vars):
-            o.append(f'h {h} ' + ('none' if v is None else '[' + self.req_str(v._reserved_resources) + ']'))
+            o.append(f'h {h} ' + ('none' if v is None else '[' + self.req_str(v.reserved_resources) + ']'))
         for i, d in enumerate(self.devs):
             o.append(self.dev_line(i, d))
         for p in self.live_parts():
@@ -784,7 +817,7 @@ class FullRunner(Runner):
                      f'active={jn(";", (self.order_str(x) for x in m._active_requests))} '
                      f'val={ival(m.value)} vh={len(m.value_history)}')
         for i, s in enumerate(self.scheds):
-            reg = jn(';', (f'{ob.k}:{"-" if a is None else a.__defaults__[0]}' for ob, a in s._registered_objects.items()))
+            reg = jn(';', (f'{ob.k}:{"-" if a is None else getattr(a, "fn", a).__defaults__[0]}' for ob, a in s._registered_objects.items()))
             o.append(f's {i} state={ival(s.current_state)} reg={reg}')
         for i, s in enumerate(self.sensors):
             data = jn('|', (jn(';', (self.sval(x) for x in s.data[p])) for p in s._probes))
